@@ -344,7 +344,7 @@ A_STDIO = ('A-std-io: ASSUMED contracts of the std::io items Frame::read / Frame
            'received or fails having delivered a proper prefix (short writes and Interrupted are retried inside it); BufReader::with_capacity(1, r).read_until(LF, v) consumes from r '
            'exactly the first line and appends it to v, however r fragments its reads and however often it reports Interrupted, and with any other capacity may consume more; '
            'thiserror\'s #[from] wraps an io::Error in FrameError::Io; core\'s reflexive From is the identity. These are stated over stand-in traits/types with the std names, '
-           'not proved; the bounded Kani harnesses c15_* and the native `stream` domain run the REAL std code against them')
+           'plus the frame conditions beside_sink() / beside_source(): a write touches nothing but the sink, a read nothing but the source (used by the serial unit for a two-way port); not proved; the bounded Kani harnesses c15_* and the native `stream` domain run the REAL std code against them')
 PROPS['C15'] = {
     'level': 'proof',
     'verus': [{'tmpl': 'frame_io.rs.tmpl', 'obligations': ['Frame::write', 'Frame::read', 'Frame::to_bytes_with_newline', 'Frame::to_bytes', 'Frame::payload',
@@ -436,3 +436,18 @@ _P_ODK = _premise('bridge-has-no-state', 'libs/testing/src/odk.rs', 'an Odk is e
 for _pid, _ps in (('C01', [_P_FRAME]), ('C02', [_P_FRAME]), ('C03', [_P_FRAME]), ('C04', [_P_MESSAGE, _P_FRAME]), ('C05', [_P_MESSAGE, _P_FRAME]),
                   ('C06', [_P_PAGE]), ('C07', [_P_PAGE]), ('C15', [_P_FRAME]), ('C16', [_P_SERIAL]), ('C18', [_P_SERIAL]), ('C17', [_P_ODK, _P_SERIAL]), ('C19', [_P_SIGNTYPE])):
     PROPS[_pid]['tools'] = _ps + PROPS[_pid].get('tools', [])
+
+# ---- Verus unit for the serial bus (added in the last session, DESIGN §9.13): the real process_message composed with the
+# VERIFIED Frame::write / Frame::read of the same file (not with assumed contract stubs), frames and lines of any length
+A_SERIAL_VERUS = ('Verus unit serial.rs.tmpl (= frame.rs.tmpl + io stand-ins + contracts/serial_unit.rs): Frame <-> Message conversion is an UNINTERPRETED function here (its table is the Kani proof of C04/C05); '
+                  'serial_core::SerialPort is a stand-in trait Read + Write whose two directions are independent (ASSUMED: writing does not alter what will be read, reading does not alter what was written - trait law two_way()); '
+                  'Box<dyn Error + Send + Sync> -> enum BusError { Frame(FrameError) }; core::time::Duration -> a stand-in struct with from_millis; std::thread::sleep -> a stand-in without a clock (pacing is NOT expressed here); debug! -> (); `?` desugared as the language defines it')
+SERIAL_VERUS_FNS = ('<flipdot_serial::SerialSignBus<P> as SignBus>::process_message, response_expected, delay_after_send, delay_after_receive (Verus, extracted; rewrites: error type / Duration / thread::sleep stand-ins, debug! dropped, `?` desugared), '
+                    'together with Frame::write, Frame::read, Frame::to_bytes_with_newline, Frame::from_bytes verified in the same file')
+PROPS['C16']['verus'] = [{'tmpl': 'serial.rs.tmpl', 'obligations': ['SerialSignBus::process_message', 'response_expected', 'Frame::write', 'Frame::read']}]
+PROPS['C16']['functions'] = [SERIAL_VERUS_FNS] + PROPS['C16']['functions']
+PROPS['C16']['assumptions'] = PROPS['C16']['assumptions'] + [A_SERIAL_VERUS, A_STDIO, A_USIZE,
+    'UNBOUNDED part (Verus): for every message and every port content, process_message returns Ok(None) only for a message that is not a hello / state query / operation request, having written exactly enc(frame)+CRLF and read nothing; Ok(Some(reply)) only when a reply is due, having written exactly that, consumed exactly the first line, with reply == Message::from(a frame equal to dec(that line)); Err(..) having written that encoding or a proper prefix of it, having read nothing unless the write completed and a reply was due, and then at most one line. response_expected == the documented table. Frame::write / Frame::read are VERIFIED callees in this unit (relative to A-std-io), not stubs']
+PROPS['C18']['verus'] = [{'tmpl': 'serial.rs.tmpl', 'obligations': ['delay_after_send', 'delay_after_receive']}]
+PROPS['C18']['assumptions'] = PROPS['C18']['assumptions'] + [A_SERIAL_VERUS,
+    'Verus (unbounded): delay_after_send(m) == Some(30 ms) iff m is SendData, delay_after_receive(r) == Some(100 ms) iff r is ReportState(_, PageLoadInProgress | PageShowInProgress), extracted on every run (robust to the private-signature fragility of the Kani classifier harness); WHERE the sleeps are placed stays with the Kani event-order harnesses']
